@@ -395,7 +395,8 @@ def build_mtl(desc: dict, cut: bool = False, shared=None, pool=None) -> BuiltMTL
     b.features = feats
     b.pool = make_leaves(desc["pool"], desc["vseed"], dtype, tag=1) if pool is None else pool
     for h in desc["heads"]:
-        base = [feats[i] for i in h["features"]] + [b.pool[i] for i in h["leaves"]] + [b.shared[i] for i in h["around"]]
+        base = ([feats[i] for i in h["features"]] + [b.pool[i] for i in h["leaves"]] + [b.shared[i] for i in h["around"]]
+                + [b.trunk_values[i] for i in h.get("around_values", [])])
         vals = run_nodes(h["nodes"], list(base), dtype)
         b.head_values.append(vals)
         b.losses.append(vals[h["loss"]])
@@ -403,7 +404,8 @@ def build_mtl(desc: dict, cut: bool = False, shared=None, pool=None) -> BuiltMTL
 
 
 def gen_mtl_program(rng, dtype="float64", n_heads=None, n_features=None, allow_around=False,
-                    share_pool=True, disjoint_heads=False, shared_descs=None, pool_descs=None, vseed=None) -> dict:
+                    share_pool=True, disjoint_heads=False, shared_descs=None, pool_descs=None, vseed=None,
+                    allow_around_values=False) -> dict:
     """Trunk (shared leaves -> 1..3 mutually independent features) and 1..4 heads ending in a 0-d loss.
 
     Leaf naming inside `deps`: ("s", i) trunk leaf, ("p", i) pool leaf.
@@ -466,10 +468,19 @@ def gen_mtl_program(rng, dtype="float64", n_heads=None, n_features=None, allow_a
             ha = []
             if allow_around and rng.random() < 0.3:
                 ha = [int(rng.integers(ns))]
-            base_vals = [g.values[feats[i]] for i in hf] + [pl[i] for i in hl] + [sl[i] for i in ha]
+            hv = []
+            if allow_around_values and rng.random() < 0.35:
+                # trunk intermediate values that are not features and not computed from a feature (siblings of a
+                # multi-output node, ancestors of features, side branches): the loss reaches the trunk AROUND the features
+                cv = [i for i in g.tensor_ids() if i >= ns and i not in feats and g.deps[i]
+                      and not any(f in g.anc[i] for f in feats)]
+                if cv:
+                    hv = [int(cv[rng.integers(len(cv))])]
+            base_vals = [g.values[feats[i]] for i in hf] + [pl[i] for i in hl] + [sl[i] for i in ha] + [g.values[i] for i in hv]
             base_deps = ([frozenset([("f", i)]) for i in hf]
                          + [frozenset([("p", i)]) if pool[i]["rg"] else frozenset() for i in hl]
-                         + [frozenset([("s", i)]) if shared[i]["rg"] else frozenset() for i in ha])
+                         + [frozenset([("s", i)]) if shared[i]["rg"] else frozenset() for i in ha]
+                         + [g.deps[i] for i in hv])
             if not any(base_deps):
                 ok = False
                 break
@@ -499,7 +510,7 @@ def gen_mtl_program(rng, dtype="float64", n_heads=None, n_features=None, allow_a
             if not torch.isfinite(lossv) or lossv.abs() > 1e6:
                 ok = False
                 break
-            heads.append({"features": hf, "leaves": hl, "around": ha, "nodes": hg.nodes, "loss": int(acc),
+            heads.append({"features": hf, "leaves": hl, "around": ha, "around_values": hv, "nodes": hg.nodes, "loss": int(acc),
                           "deps": sorted(map(list, hg.deps[acc]))})
         if not ok:
             continue
